@@ -53,6 +53,8 @@ func checkC02(p *core.Program, r *core.Report) {
 	r.Require("type_registries", r.Analysed["type_registries"], 6)
 	r.Rule("R5", "what the engine writes the reader accepts: an event field tagged validate:\"required\" is fed evaluated (possibly empty) text only under an emptiness test on the very value that is written")
 	c02R5(p, r)
+	r.Rule("R9", "what the engine writes the reader accepts, for run state: a text field of a persisted struct of flows, flows/runs or flows/engine that carries a validate constraint beyond required/omitempty is never fed — through its constructor's parameter, followed two call levels up, except under a constant regexp gate whose language lies inside the constraint's (decided on automata) — from run-time text (a translation looked up with Run.GetText*/GetItemTranslation, an evaluated template, the text of an incoming message): such text is not constrained where it is written, so a session the engine has written could not be read back")
+	c02R9(p, r)
 	r.Assumption("equality of behaviour of the restored session is not decided; encoding/json round-trips exported, tagged fields of plain structs")
 
 	pkgSet := map[string]bool{}
@@ -671,6 +673,178 @@ func c02R5(p *core.Program, r *core.Report) {
 	}
 	r.Count("evaluated_required_event_fields", n)
 	r.Require("evaluated_required_event_fields", n, 1)
+}
+
+// c02ConstraintPatterns: what a validator tag admits, as a regular expression (go-playground/validator's own).
+var c02ConstraintPatterns = map[string]string{
+	"uuid4": `^[0-9a-f]{8}-[0-9a-f]{4}-4[0-9a-f]{3}-[89ab][0-9a-f]{3}-[0-9a-f]{12}$`,
+}
+
+// c02R9: constrained text fields of persisted run state are not fed from run-time text.
+func c02R9(p *core.Program, r *core.Report) {
+	scope := map[string]bool{"flows": true, "flows/runs": true, "flows/engine": true}
+	constrained := map[*types.Var]string{}
+	owner := map[*types.Var]string{}
+	nTagged := 0
+	for rel := range scope {
+		pk := p.Pkg(rel)
+		if pk == nil {
+			continue
+		}
+		sc := pk.Types.Scope()
+		for _, nm := range sc.Names() {
+			tn, ok := sc.Lookup(nm).(*types.TypeName)
+			if !ok {
+				continue
+			}
+			st, ok := tn.Type().Underlying().(*types.Struct)
+			if !ok {
+				continue
+			}
+			for i := 0; i < st.NumFields(); i++ {
+				tag := reflect.StructTag(st.Tag(i))
+				v := tag.Get("validate")
+				if v == "" || tag.Get("json") == "" {
+					continue
+				}
+				nTagged++
+				if !isStringType(st.Field(i).Type()) {
+					continue
+				}
+				var extra []string
+				for _, c := range strings.Split(v, ",") {
+					if c != "" && c != "required" && c != "omitempty" && c != "dive" {
+						extra = append(extra, c)
+					}
+				}
+				if len(extra) > 0 {
+					constrained[st.Field(i)] = strings.Join(extra, ",")
+					owner[st.Field(i)] = tn.Name()
+				}
+			}
+		}
+	}
+	r.Count("validated_persisted_fields", nTagged)
+	r.Require("validated_persisted_fields", nTagged, 10)
+	isRuntimeText := func(c *ssa.Call) string {
+		o := core.CalleeObj(&c.Call)
+		if o == nil {
+			return ""
+		}
+		n := core.ObjName(o)
+		switch {
+		case strings.HasPrefix(n, "flows.Run.GetText"), strings.HasPrefix(n, "flows.Run.GetTranslatedTextArray"), strings.HasPrefix(n, "flows.Run.EvaluateTemplate"),
+			strings.HasPrefix(n, "flows.Localization.GetItemTranslation"), n == "flows.MsgIn.Text":
+			return n
+		}
+		return ""
+	}
+	// which text reaches parameter k of fn, looking through the callers' own parameters (two levels)
+	// gated: the call is made only when a constant regexp, whose language lies inside what the constraint admits,
+	// matched the very text that is passed (conversions aside)
+	gated := func(cs core.CallSite, arg ssa.Value, constraint string) bool {
+		refPat, known := c02ConstraintPatterns[constraint]
+		if !known {
+			return false
+		}
+		ref, err := rxCompile(refPat)
+		if err != nil {
+			return false
+		}
+		same := core.BackSlice(arg, nil)
+		for _, ce := range core.ControllingConds(cs.Instr.Block()) {
+			call, ok := ce.Cond.(*ssa.Call)
+			if !ok || !ce.Taken {
+				continue
+			}
+			o := core.CalleeObj(&call.Call)
+			if o == nil || core.ObjName(o) != "regexp.Regexp.MatchString" || len(call.Call.Args) < 2 || !same[call.Call.Args[1]] {
+				continue
+			}
+			g := loadedGlobal(call.Call.Args[0])
+			if g == nil {
+				continue
+			}
+			pat, ok := globalPattern(p, g)
+			if !ok {
+				continue
+			}
+			gate, err := rxCompile(pat)
+			if err != nil {
+				continue
+			}
+			if inc, _ := rxIncludes(ref, gate); inc {
+				return true
+			}
+		}
+		return false
+	}
+	var fedBy func(fn *ssa.Function, k int, depth int, constraint string) string
+	fedBy = func(fn *ssa.Function, k int, depth int, constraint string) string {
+		for _, cs := range p.CallsTo(fn) {
+			if p.IsTestFile(cs.Pos()) || cs.Common().StaticCallee() != fn || k >= len(cs.Common().Args) {
+				continue
+			}
+			if gated(cs, cs.Common().Args[k], constraint) {
+				continue
+			}
+			for v := range core.BackSlice(cs.Common().Args[k], func(*ssa.Call) bool { return true }) {
+				switch x := v.(type) {
+				case *ssa.Call:
+					if src := isRuntimeText(x); src != "" {
+						return src + " (" + p.Pos(x.Pos()) + ")"
+					}
+				case *ssa.Parameter:
+					if depth < 2 && x.Parent() != nil {
+						for j, fp := range x.Parent().Params {
+							if fp == x {
+								if src := fedBy(x.Parent(), j, depth+1, constraint); src != "" {
+									return src
+								}
+							}
+						}
+					}
+				}
+			}
+		}
+		return ""
+	}
+	fields := map[*types.Var]string{}
+	for _, fn := range p.ModuleFunctions() {
+		if p.IsTestFile(fn.Pos()) || fn.Synthetic != "" {
+			continue
+		}
+		core.EachInstr(fn, false, func(_ *ssa.Function, in ssa.Instruction) {
+			st, ok := in.(*ssa.Store)
+			if !ok {
+				return
+			}
+			_, fv := c02FieldOwner(st.Addr)
+			if fv == nil || constrained[fv] == "" {
+				return
+			}
+			if _, seen := fields[fv]; !seen {
+				fields[fv] = ""
+			}
+			prm, ok := core.StripConv(st.Val).(*ssa.Parameter)
+			if !ok {
+				return
+			}
+			for k, fp := range fn.Params {
+				if fp == prm && fields[fv] == "" {
+					fields[fv] = fedBy(fn, k, 0, constrained[fv])
+				}
+			}
+		})
+	}
+	for fv, c := range constrained {
+		src, written := fields[fv]
+		if !written {
+			continue // only ever read from JSON
+		}
+		key := owner[fv] + "." + fv.Name() + "/constraint-" + c + "/not-fed-run-time-text"
+		r.Check(src == "", "R9", key, p.Pos(fv.Pos()), "no run-time text reaches the field", owner[fv]+"."+fv.Name()+" must satisfy `"+c+"` when a run is read back, but the engine stores text from "+src+" in it without that constraint: a session written at a wait cannot be read again")
+	}
 }
 
 func c02FieldOwner(v ssa.Value) (*types.Named, *types.Var) {
